@@ -167,6 +167,41 @@ def solver_stateless(prog: Program) -> RuleResult:
                     if name.endswith("__setattr__") or name == "setattr":
                         if node.args and isinstance(node.args[0], ast.Name) and node.args[0].id == "self":
                             bad.append((node, f"`{short(node, 70)}` stores state on a (frozen) object outside its constructor"))
+        # (f) a mutable class attribute written through `self` is shared by all instances
+        if owner_cls is not None:
+            shared = {}
+            for st in owner_cls.body:
+                tgt = None
+                if isinstance(st, ast.Assign) and len(st.targets) == 1 and isinstance(st.targets[0], ast.Name):
+                    tgt, val = st.targets[0].id, st.value
+                elif isinstance(st, ast.AnnAssign) and isinstance(st.target, ast.Name) and st.value is not None:
+                    tgt, val = st.target.id, st.value
+                if tgt and _is_mutable_literal(val):
+                    shared[tgt] = st
+            rebound = set()
+            init = next((m for m in owner_cls.body if isinstance(m, FuncNode) and m.name in ("__init__", "__post_init__")), None)
+            if init is not None:
+                for node in walk_no_nested(init):
+                    if isinstance(node, (ast.Assign, ast.AnnAssign)):
+                        tgts = node.targets if isinstance(node, ast.Assign) else [node.target]
+                        for t in tgts:
+                            if isinstance(t, ast.Attribute) and isinstance(t.value, ast.Name) and t.value.id == "self":
+                                rebound.add(t.attr)
+            for attr, st in shared.items():
+                if attr in rebound:
+                    continue
+                for node in walk_no_nested(fn):
+                    hit = False
+                    if isinstance(node, (ast.Assign, ast.AugAssign)):
+                        tgts = node.targets if isinstance(node, ast.Assign) else [node.target]
+                        for t in tgts:
+                            if isinstance(t, ast.Subscript) and dotted(t.value) == f"self.{attr}":
+                                hit = True
+                    elif isinstance(node, ast.Call) and isinstance(node.func, ast.Attribute) and node.func.attr in MUTATORS:
+                        if dotted(node.func.value) == f"self.{attr}":
+                            hit = True
+                    if hit:
+                        bad.append((node, f"`{short(node, 60)}` writes into `{attr}`, a mutable class attribute (`{short(st, 50)}`) that the constructor never rebinds: all instances share it"))
         if bad:
             for node, why in bad:
                 res.fail(construct, why, mod, node)
@@ -514,7 +549,405 @@ def _shares_graph(val: ast.AST, alias: Set[str]) -> bool:
     return False
 
 
+# ---------------------------------------------------------------------------
+
+
+def _generator_functions(prog: Program) -> Set[str]:
+    out = set()
+    for mod, qual, fn in prog.functions():
+        if any(isinstance(n, (ast.Yield, ast.YieldFrom)) for n in walk_no_nested(fn)):
+            out.add(fn.name)  # type: ignore[attr-defined]
+    return out
+
+
+ONE_SHOT_CALLS = {"map", "filter", "zip", "iter", "enumerate", "reversed", "chain", "itertools.chain", "product", "itertools.product"}
+
+
+def iterator_reuse(prog: Program) -> RuleResult:
+    res = RuleResult(
+        "ITERATOR-REUSE",
+        "a one-shot iterator (map / filter / zip / generator expression / the result of a generator function of "
+        "the package such as binarize) bound to a name is never consumed inside the body of a loop that runs "
+        "after the binding: from the second iteration on it is exhausted and the inner loop silently does nothing",
+    )
+    gens = _generator_functions(prog)
+    n = 0
+    for mod, qual, fn in prog.functions():
+        key = _modkey(mod)
+        for node in walk_no_nested(fn):
+            if not (isinstance(node, ast.Assign) and len(node.targets) == 1 and isinstance(node.targets[0], ast.Name)):
+                continue
+            val = node.value
+            one_shot = isinstance(val, ast.GeneratorExp) or (
+                isinstance(val, ast.Call)
+                and (
+                    (dotted(val.func) or "") in ONE_SHOT_CALLS
+                    or (isinstance(val.func, ast.Name) and val.func.id in gens)
+                    or (isinstance(val.func, ast.Attribute) and val.func.attr in gens and val.func.attr not in ("copy",))
+                )
+            )
+            if not one_shot:
+                continue
+            name = node.targets[0].id
+            n += 1
+            construct = f"{key}:{qual}/iterator[{name}]"
+            from ..flow import loops_around
+
+            binding_loops = loops_around(fn, node)
+            bad = []
+            for use in walk_no_nested(fn):
+                consumed = None
+                if isinstance(use, (ast.For, ast.comprehension)) and isinstance(use.iter, ast.Name) and use.iter.id == name:
+                    consumed = use
+                elif isinstance(use, ast.Call) and any(isinstance(a, ast.Name) and a.id == name for a in use.args):
+                    fname = dotted(use.func) or ""
+                    if fname in ("list", "tuple", "set", "sorted", "sum", "max", "min", "any", "all", "dict", "len") or fname in ONE_SHOT_CALLS:
+                        consumed = use
+                if consumed is None or getattr(consumed, "lineno", node.lineno) < node.lineno:
+                    continue
+                anchor = consumed if not isinstance(consumed, ast.comprehension) else use.iter
+                use_loops = loops_around(fn, anchor)
+                if isinstance(consumed, ast.For):
+                    use_loops = [l for l in use_loops if l is not consumed]
+                extra = [l for l in use_loops if not any(l is b for b in binding_loops)]
+                if extra:
+                    bad.append((anchor, extra[0]))
+            if bad:
+                anchor, loop = bad[0]
+                res.fail(
+                    construct,
+                    f"`{name}` = `{short(val, 60)}` is a one-shot iterator, but it is consumed inside the loop "
+                    f"`for {short(loop.target, 30) if isinstance(loop, ast.For) else '...'} in ...` that starts after the binding: "
+                    "only the first iteration sees its elements",
+                    mod,
+                    anchor,
+                )
+            else:
+                res.ok(construct, f"`{short(val, 50)}` consumed at most once per binding")
+    res.floor(1)
+    return res
+
+
+# ---------------------------------------------------------------------------
+
+
+def memo_key(prog: Program) -> RuleResult:
+    res = RuleResult(
+        "MEMO-KEY",
+        "a function that keeps results in a table (`if key not in T: T[key] = ...; return T[key]`) builds the key "
+        "from every parameter its callers vary: a parameter that some call site sets to anything else than the "
+        "caller's own unchanged parameter of the same name, and that the key leaves out, makes later calls "
+        "return the answer computed for another argument",
+    )
+    n = 0
+    for mod, qual, fn in prog.functions():
+        key_mod = _modkey(mod)
+        if not key_mod.startswith(PURE_SCOPE):
+            continue
+        params = func_params(fn)
+        for test in walk_no_nested(fn):
+            if not (isinstance(test, ast.Compare) and len(test.ops) == 1 and isinstance(test.ops[0], (ast.In, ast.NotIn))):
+                continue
+            table = test.comparators[0]
+            tname = dotted(table)
+            if tname is None:
+                continue
+            keyexpr = test.left
+            stores = [
+                st for st in walk_no_nested(fn)
+                if isinstance(st, ast.Assign) and len(st.targets) == 1 and isinstance(st.targets[0], ast.Subscript)
+                and dotted(st.targets[0].value) == tname and ast.dump(st.targets[0].slice) == ast.dump(keyexpr)
+            ]
+            returns = [
+                r for r in walk_no_nested(fn)
+                if isinstance(r, ast.Return) and isinstance(r.value, ast.Subscript) and dotted(r.value.value) == tname
+                and ast.dump(r.value.slice) == ast.dump(keyexpr)
+            ]
+            if not stores or not returns:
+                continue
+            n += 1
+            construct = f"{key_mod}:{qual}/memo[{tname}]"
+            key_names = _expand_names(fn, keyexpr)
+            varying = _varying_params(prog, mod, fn)
+            missing = [p for p in params if p in varying and p not in key_names and p != tname and p not in ("self", "cls")]
+            # parameters that do not influence the stored value are irrelevant
+            used = set()
+            for st in stores:
+                used |= {nm.id for nm in ast.walk(st.value) if isinstance(nm, ast.Name)}
+            missing = [p for p in missing if p in used]
+            if missing:
+                res.fail(
+                    construct,
+                    f"results are cached in `{tname}` under the key `{short(keyexpr)}`, which leaves out "
+                    f"{missing}: callers vary {'these parameters' if len(missing) > 1 else 'this parameter'} "
+                    "and the stored result depends on it",
+                    mod,
+                    stores[0],
+                )
+            else:
+                res.ok(construct, f"key `{short(keyexpr)}` covers every varying parameter")
+    if n == 0:
+        res.ok("package/no-memo-table", "no memo-table idiom in compute/, model/, utils/, render/", nontrivial=False)
+    return res
+
+
+def _expand_names(fn: ast.AST, expr: ast.AST) -> Set[str]:
+    names = {n.id for n in ast.walk(expr) if isinstance(n, ast.Name)}
+    out = set(names)
+    for nm in list(names):
+        for node in ast.walk(expr):
+            if isinstance(node, ast.Name) and node.id == nm and hasattr(node, "lineno"):
+                val = reaching(fn, nm, node)
+                if val is not None and not isinstance(val, Opaque):
+                    out |= {n.id for n in ast.walk(val) if isinstance(n, ast.Name)}
+                break
+    return out
+
+
+def _varying_params(prog: Program, mod: Module, fn: ast.AST) -> Set[str]:
+    """Parameters of `fn` that some call site in the package binds to something else than the caller's
+    own never-reassigned parameter of the same name."""
+    params = func_params(fn)
+    varying: Set[str] = set()
+    seen_call = False
+    graph = call_graph(prog)
+    me = None
+    for k, (m, node) in graph.nodes.items():
+        if node is fn:
+            me = k
+    inside = graph.reachable(me) if me is not None else set()
+    for cmod, cqual, caller in prog.functions():
+        # only call sites inside the recursion (functions reachable from fn): the call that starts a
+        # recursion may pass anything, it comes with its own table
+        if me is not None and graph.key(cmod, cqual) not in inside:
+            continue
+        cparams = set(func_params(caller))
+        reassigned = {n.id for n in ast.walk(caller) if isinstance(n, ast.Name) and not isinstance(n.ctx, ast.Load)}
+        for call in ast.walk(caller):
+            if not isinstance(call, ast.Call):
+                continue
+            target = None
+            if isinstance(call.func, ast.Name) and call.func.id == fn.name:  # type: ignore[attr-defined]
+                res = resolve_callee(prog, cmod, call.func)
+                if res is not None and res[1] is fn:
+                    target = fn
+                elif cmod is mod:
+                    target = fn
+            if target is None:
+                continue
+            seen_call = True
+            bound: Dict[str, ast.AST] = {}
+            for i, a in enumerate(call.args):
+                if i < len(params) and not isinstance(a, ast.Starred):
+                    bound[params[i]] = a
+            for kw in call.keywords:
+                if kw.arg in params:
+                    bound[kw.arg] = kw.value
+            for p, a in bound.items():
+                same = isinstance(a, ast.Name) and a.id == p and p in cparams and p not in reassigned
+                if not same:
+                    varying.add(p)
+    if not seen_call:
+        return set()
+    return varying
+
+
+# ---------------------------------------------------------------------------
+
+
+INPUT_CLASSES = ("ReconciliationInput", "SuperReconciliationInput")
+
+
+def readonly_input(prog: Program) -> RuleResult:
+    res = RuleResult(
+        "READONLY-INPUT",
+        "a solver never writes into the input object it is given: no store, in-place operator or mutating "
+        "method on anything reached from a parameter annotated with an input class (its mappings, cost "
+        "vector, trees) - the caller's input is used again, and leaf_object_species must keep only leaves. "
+        "(label_internal() on a refinement produced by binarize() is a write to a fresh object.)",
+    )
+    n = 0
+    for mod, qual, fn in prog.functions():
+        key = _modkey(mod)
+        if not key.startswith("compute."):
+            continue
+        in_params = []
+        for arg in fn.args.args + fn.args.kwonlyargs:  # type: ignore[attr-defined]
+            ann = dotted(arg.annotation) if arg.annotation is not None else None
+            if ann in INPUT_CLASSES:
+                in_params.append(arg.arg)
+        if not in_params:
+            continue
+        n += 1
+        construct = f"{key}:{qual}/input-readonly"
+        alias: Set[str] = set(in_params)
+        changed = True
+        while changed:
+            changed = False
+            for node in walk_no_nested(fn):
+                if isinstance(node, ast.Assign) and len(node.targets) == 1 and isinstance(node.targets[0], ast.Name):
+                    nm = node.targets[0].id
+                    if nm not in alias and _reaches_input(node.value, alias):
+                        alias.add(nm)
+                        changed = True
+        bad = []
+        for node in walk_no_nested(fn):
+            if isinstance(node, (ast.Assign, ast.AugAssign, ast.Delete)):
+                tgts = node.targets if isinstance(node, (ast.Assign, ast.Delete)) else [node.target]
+                for tgt in tgts:
+                    if isinstance(tgt, (ast.Subscript, ast.Attribute)) and _root_name(tgt) in alias:
+                        bad.append(node)
+                    elif isinstance(node, ast.AugAssign) and isinstance(tgt, ast.Name) and tgt.id in alias and tgt.id not in in_params:
+                        if isinstance(node.op, (ast.BitOr, ast.BitAnd, ast.BitXor, ast.Add)):
+                            bad.append(node)
+            elif isinstance(node, ast.Call) and isinstance(node.func, ast.Attribute) and node.func.attr in MUTATORS | {"label_internal", "add_feature", "add_child", "detach", "delete", "remove_child"}:
+                if _root_name(node.func.value) in alias:
+                    bad.append(node)
+        if bad:
+            for node in bad:
+                res.fail(construct, f"`{short(node, 70)}` writes into the caller's input (aliases of the input: {sorted(alias)})", mod, node)
+        else:
+            res.ok(construct, f"no write through {sorted(alias)}")
+    res.floor(10)
+    return res
+
+
+def _reaches_input(val: ast.AST, alias: Set[str]) -> bool:
+    """The value is (part of) the input object itself, not a copy / fresh result."""
+    if isinstance(val, ast.Name):
+        return val.id in alias
+    if isinstance(val, (ast.Attribute, ast.Subscript)):
+        return _root_name(val) in alias
+    if isinstance(val, ast.IfExp):
+        return _reaches_input(val.body, alias) or _reaches_input(val.orelse, alias)
+    return False
+
+
+# ---------------------------------------------------------------------------
+
+
+def no_pruned_traversal(prog: Program) -> RuleResult:
+    res = RuleResult(
+        "NO-PRUNED-TRAVERSAL",
+        "no tree traversal of the package passes `is_leaf_fn` (ete3 then stops at the nodes the predicate "
+        "accepts and never visits what lies below): every loop that is meant to see every node sees every node",
+    )
+    n = 0
+    for mod, qual, fn in prog.functions():
+        for call in walk_no_nested(fn):
+            if isinstance(call, ast.Call) and isinstance(call.func, ast.Attribute) and call.func.attr in (
+                "traverse", "iter_leaves", "get_leaves", "iter_descendants", "get_descendants", "iter_leaf_names", "get_leaf_names",
+            ):
+                n += 1
+                pruned = any(k.arg == "is_leaf_fn" for k in call.keywords) or (call.func.attr == "traverse" and len(call.args) > 1)
+                construct = f"{_modkey(mod)}:{qual}/traversal[{short(call.func.value, 30)}.{call.func.attr}]"
+                if pruned:
+                    res.fail(construct, f"`{short(call, 80)}` prunes the traversal: nodes below an accepted node are never visited", mod, call)
+                else:
+                    res.ok(construct, "visits every node", nontrivial=False)
+    if n < 20:
+        raise AnalysisError(f"NO-PRUNED-TRAVERSAL: only {n} traversals found")
+    return res
+
+
+# ---------------------------------------------------------------------------
+
+
+MODEL_CLASSES = ("ReconciliationInput", "SuperReconciliationInput", "ReconciliationOutput", "SuperReconciliationOutput")
+
+
+def field_copy_complete(prog: Program) -> RuleResult:
+    from ..resolve import all_fields
+
+    res = RuleResult(
+        "FIELD-COPY-COMPLETE",
+        "wherever a model object is rebuilt from the fields of another one (a constructor call with two or more "
+        "arguments of the form `x.<field>` on the same x), every field of the target class is passed: a field "
+        "with a default that is left out (the cost vector) silently falls back to that default",
+    )
+    n = 0
+    for mod, qual, fn in prog.functions():
+        for call in walk_no_nested(fn):
+            if not (isinstance(call, ast.Call) and isinstance(call.func, ast.Name) and call.func.id in MODEL_CLASSES):
+                continue
+            target = resolve_name(prog, mod, call.func.id)
+            if target is None or not isinstance(target[1], ast.ClassDef):
+                continue
+            n += 1
+            fields = all_fields(prog, target[0], target[1])
+            given: Dict[str, ast.AST] = {}
+            for i, a in enumerate(call.args):
+                if i < len(fields):
+                    given[fields[i]] = a
+            for kw in call.keywords:
+                if kw.arg:
+                    given[kw.arg] = kw.value
+                else:
+                    given["**"] = kw.value
+            sources = [_root_name(v) for v in given.values() if isinstance(v, ast.Attribute)]
+            construct = f"{_modkey(mod)}:{qual}/{call.func.id}(...)"
+            copied_from = {s for s in sources if s and sources.count(s) >= 2}
+            missing = [f for f in fields if f not in given]
+            if copied_from and missing and "**" not in given:
+                res.fail(
+                    construct,
+                    f"`{short(call, 80)}` rebuilds a {call.func.id} from the fields of `{sorted(copied_from)[0]}` but "
+                    f"leaves out {missing}: the copy falls back to the default value of "
+                    f"{'these fields' if len(missing) > 1 else 'this field'}",
+                    mod,
+                    call,
+                )
+            else:
+                res.ok(construct, f"passes {sorted(given)}", nontrivial=bool(copied_from))
+    res.floor(4)
+    return res
+
+
+def eq_by_fields(prog: Program) -> RuleResult:
+    res = RuleResult(
+        "EQ-BY-FIELDS",
+        "the model classes compare by their fields (the generated dataclass __eq__: mappings keyed by node "
+        "objects): none of them defines an __eq__ that goes through the name-keyed serialisation, which merges "
+        "two different solutions whenever two nodes share a name (result sets are sets of outputs)",
+    )
+    model = "model.reconciliation"
+    mod = prog.module(model)
+    for cname in MODEL_CLASSES:
+        cls = prog.cls(model, cname)
+        construct = f"{model}:{cname}/equality"
+        eq = next((m for m in cls.body if isinstance(m, FuncNode) and m.name == "__eq__"), None)
+        deco_ok = any(
+            (dotted(d.func if isinstance(d, ast.Call) else d) or "").split(".")[-1] == "dataclass"
+            and not (isinstance(d, ast.Call) and any(k.arg == "eq" and isinstance(k.value, ast.Constant) and k.value.value is False for k in d.keywords))
+            for d in cls.decorator_list
+        )
+        if eq is None:
+            if deco_ok:
+                res.ok(construct, "dataclass field equality")
+            else:
+                res.fail(construct, f"{cname} is not a dataclass with generated equality: outputs compare by identity", mod, cls)
+            continue
+        coarse = [c for c in ast.walk(eq) if isinstance(c, ast.Call) and (dotted(c.func) or "").startswith("serialize_")]
+        if coarse:
+            res.fail(
+                construct,
+                f"{cname}.__eq__ compares `{short(coarse[0], 60)}`: two solutions that differ only on nodes sharing a "
+                "name compare equal and are merged in the result set",
+                mod,
+                eq,
+            )
+        else:
+            raise AnalysisError(f"{construct}: hand-written __eq__ of a shape that is not recognised")
+    return res
+
+
 RULES = {
+    "ITERATOR-REUSE": iterator_reuse,
+    "MEMO-KEY": memo_key,
+    "READONLY-INPUT": readonly_input,
+    "NO-PRUNED-TRAVERSAL": no_pruned_traversal,
+    "FIELD-COPY-COMPLETE": field_copy_complete,
+    "EQ-BY-FIELDS": eq_by_fields,
     "SOLVER-STATELESS": solver_stateless,
     "RECURSE-FORWARD": recurse_forward,
     "IDENTITY-KEYS": identity_keys,
